@@ -59,6 +59,9 @@ def parseNow (s : String) : Option (List (Nat × CState)) :=
 
 def b2s (b : Bool) : String := if b then "1" else "0"
 
+def parseBool' (s : String) : Option Bool :=
+  if s == "1" then some true else if s == "0" then some false else none
+
 def showCall : Call → Option String
   | .atQuota a => some s!"aq={b2s a}"
   | .kill u a => some s!"pk{u}={b2s a}"
@@ -119,6 +122,30 @@ def runSy (ents : List Ent) (run : List (Nat × Option Nat)) (qupd : Nat) (anyUn
     | .goRequeue u => some (Op.requeue, u) | .forget _ => none)
   joinOr (forgets.map (fun u => s!"qf{u}")) ++ ";" ++ showAsync latched (fun _ => none) gs
 
+/-- `fs`: fixStaleLocks, then two runQueue passes, against a pool with one Unknown (unprobed)
+instance that hosts the processes `hidden`; reports the unlocks, both passes, and the containers
+that end up with a process on two instances. Priorities are distinct in these cases. -/
+def runFs (ents : List Ent) (running : List Nat) (hidden : List Nat) (anyUnknown : Bool) (un : Unalloc)
+    (script : List Bool) : String :=
+  let isRun := fun u => running.contains u
+  let unlocked := sortNat (fixStaleLocks anyUnknown ents isRun)
+  let e1 := unlockAll ents unlocked
+  let pass := fun (es : List Ent) (scr : List Bool) (run : List Nat) =>
+    let o := tryrun (fun u => run.contains u) (priorityOrder es) un [] scr
+    let sds := sortNat (shutdownTypes o)
+    o.calls ++ overquotaUnlocks o.overquota ++ sds.map .shutdown
+  let c1 := pass e1 script running
+  let used1 := (c1.filter (fun c => match c with
+    | .atQuota _ | .kill _ _ | .create _ _ | .start _ _ _ => true | _ => false)).length
+  let started1 := c1.filterMap (fun c => match c with | .start _ u true => some u | _ => none)
+  let unl1 := c1.filterMap (fun c => match c with | .unlock u => some u | _ => none)
+  let e2 := unlockAll (lockAll e1 c1) unl1
+  let c2 := pass e2 (script.drop used1) (running ++ started1)
+  let started2 := c2.filterMap (fun c => match c with | .start _ u true => some u | _ => none)
+  let doubles := sortNat ((started1 ++ started2).filter (fun u => hidden.contains u)).eraseDups
+  joinOr (unlocked.map (fun u => s!"qu{u}")) ++ ";" ++ joinOr (c1.filterMap showCall) ++ ";" ++
+    joinOr (c2.filterMap showCall) ++ ";double=" ++ joinOr (doubles.map toString)
+
 def parseOp (s : String) : Option Op :=
   match s with
   | "lock" => some .lock | "cancel" => some .cancel | "kill" => some .kill | "requeue" => some .requeue
@@ -151,6 +178,9 @@ def stepL1 (f : List String) : Option String :=
     let au ← if au == "1" then some true else if au == "0" then some false else none
     pure (runSy ents (← parseRun rn) (← qu.toNat?) au (← parseNats la))
   | ["la", ops] => runLa (splitList ops)
+  | ["fs", es, rn, hid, au, un, sc] => do
+    let ents ← (splitList es).mapM parseEnt
+    pure (runFs ents (← parseNats rn) (← parseNats hid) (← parseBool' au) (← parseUnalloc un) (← parseScript sc))
   | _ => none
 
 /-! ### L2: op sequences on the pool model
@@ -321,6 +351,7 @@ def step (line : String) : String :=
   let f := fields line
   let r := match f with
     | ["pl", ws, ex, ops] => C14Drv.runPl ws ex ops
+    | "e2e" :: _ => some "e2e-no-model"
     | _ => C14Drv.stepL1 f
   match r with
   | some r => r
